@@ -23,6 +23,7 @@ type fpSc struct {
 	Local    []int `json:"local"`      // provider refs stored locally
 	LocalAdr bool  `json:"local_addr"` // local providers have addresses in the peerstore
 	CancelMs int   `json:"cancel_ms,omitempty"`
+	SlowReadMs int `json:"slow_read_ms,omitempty"` // the consumer pauses this long after every provider it reads
 }
 
 type provEmit struct {
@@ -68,6 +69,9 @@ func TestVerif_C08_FindProviders(t *testing.T) {
 			if rapid.IntRange(0, 5).Draw(t, "cancel") == 0 {
 				sc.CancelMs = rapid.IntRange(1, 6000).Draw(t, "cancelMs")
 			}
+			if verifsim.Chance(t, "slowRead", 30) {
+				sc.SlowReadMs = rapid.SampledFrom([]int{1, 40, 700, 3000}).Draw(t, "slowReadMs")
+			}
 			return sc
 		},
 		Run: func(t *testing.T, sc fpSc) (res verifsim.Result) {
@@ -108,8 +112,21 @@ func TestVerif_C08_FindProviders(t *testing.T) {
 				}
 				for p := range env.d.FindProvidersAsync(ctx, cid.NewCidV1(cid.Raw, mh.Multihash(key)), sc.Count) {
 					emits = append(emits, provEmit{env.sim.Now(), p.ID, len(p.Addrs)})
+					time.Sleep(time.Duration(sc.SlowReadMs) * time.Millisecond)
 				}
 				closedAt = env.sim.Now()
+				if sc.SlowReadMs > 0 {
+					// a pausing consumer sees the channel close later than the search ended: the search ends with its last exchange
+					var lastExchange time.Duration
+					for _, e := range env.sim.Log() {
+						if e.Kind == "request" && e.Type == pb.Message_GET_PROVIDERS && e.End > lastExchange {
+							lastExchange = e.End
+						}
+					}
+					if lastExchange > 0 && lastExchange < closedAt {
+						closedAt = lastExchange
+					}
+				}
 				cancel()
 				time.Sleep(time.Minute)
 				for _, e := range env.sim.Log() {
